@@ -56,6 +56,10 @@ func (g *Gen) verifyFunc(fc *FuncContract) (*VC, error) {
 	vc := g.newVC(name, fn, fc)
 	vc.curProps = fc.Props
 	fr := vc.newFrame(fn, nil)
+	fr.alias = renamedLocals(fn, g.recordedLocals[fn.String()])
+	for cur, old := range fr.alias {
+		vc.note("local variable %s of %s was named %s when the contract was locked: bound under both names (definition fingerprints match uniquely)", cur, shortKey(fn.String()), old)
+	}
 	fr.top = true
 	fr.c = fc
 	st := &State{m: map[string]string{}}
@@ -326,6 +330,11 @@ func (fr *Frame) loopEnv(li *loopInfo, st *State) *SpecEnv {
 		if _, shadow := env.vars[name]; !shadow {
 			env.vars[name] = tv{t: fr.v1(v), ty: v.Type()}
 		}
+		if old, ok := fr.alias[name]; ok {
+			if _, shadow := env.vars[old]; !shadow {
+				env.vars[old] = tv{t: fr.v1(v), ty: v.Type()}
+			}
+		}
 	}
 	// address-taken locals (private allocs) by variable name
 	for a := range fr.privAlloc {
@@ -333,6 +342,11 @@ func (fr *Frame) loopEnv(li *loopInfo, st *State) *SpecEnv {
 			if l, ok := fr.locs[a]; ok {
 				if _, shadow := env.vars[a.Comment]; !shadow {
 					env.lazy[a.Comment] = l
+				}
+				if old, ok := fr.alias[a.Comment]; ok {
+					if _, shadow := env.vars[old]; !shadow {
+						env.lazy[old] = l
+					}
 				}
 			}
 		}
@@ -353,6 +367,9 @@ func (fr *Frame) loopEnv(li *loopInfo, st *State) *SpecEnv {
 			}
 			if c != "" {
 				env.vars[c] = tv{t: fr.v1(phi), ty: phi.Type()}
+				if old, ok := fr.alias[c]; ok {
+					env.vars[old] = tv{t: fr.v1(phi), ty: phi.Type()}
+				}
 			}
 		}
 	}
